@@ -21,6 +21,11 @@ Seeds ==
                                                  !.options = <<AuthOptsFull>>,
                                                  !.attestationFormatsPreference = <<<<N_tpm, N_packed>>>>]],
                 [c |-> 2, sv |-> [GaReqMin EXCEPT !.allowList = <<<<[id |-> Pattern(3, 16), type |-> <<111, 116, 104, 101, 114>>], GDesc(2)>>>>]],
+                \* members whose value is DROPPED (an over-long icon, over-long names) are still members:
+                \* duplicating them is a duplicate
+                [c |-> 1, sv |-> [McReqMin EXCEPT !.user = [UserMin EXCEPT !.icon = <<AsciiPattern(4, 200)>>, !.name = <<AsciiPattern(5, 100)>>,
+                                                                          !.displayName = <<AsciiPattern(6, 65)>>],
+                                                 !.rp = [RpMin EXCEPT !.icon = <<AsciiPattern(7, 300)>>, !.name = <<AsciiPattern(8, 70)>>]]],
                 [c |-> 2, sv |-> [GaReqMin EXCEPT !.allowList = <<<<GDesc(1), GDesc(2), GDesc(3)>>>>,
                                                  !.attestationFormatsPreference = <<<<N_none, N_packed, N_tpm>>>>]]}
           ELSE {})
@@ -37,6 +42,16 @@ TreeFaults(s) ==
     WideFaults(t) \cup IndefFaults(t) \cup WrongTypeFaults(t)
     \cup RemoveRequiredFaults(SeedTy(s), t, F) \cup DuplicateFaults(SeedTy(s), t, F)
 
+\* a member given as null (read as absent where that is tolerated) and then given again
+NullThenValue ==
+    LET t == ToTree(T_Indexed("McReq"), McReqMin, F, TRUE)
+        u == CHOOSE i \in 1..Len(t.m) : t.m[i][1] = CU(3)
+        um == t.m[u][2].m
+    IN  {[op |-> "decode2", tag |-> "fault:duplicate", c |-> 1, sv |-> << >>, fault |-> "duplicate",
+          wire |-> <<1>> \o Enc(Put(t, <<2 * u>>, CMap(um \o << <<CText(k), CNull>>, <<CText(k), v>> >>)))] :
+            k \in {N_name, N_displayName}, v \in {CText(AsciiPattern(1, 4)), CNull}}
+
 MC_Cases ==
+    NullThenValue \cup
     UNION {{FaultCase(s, f) : f \in TreeFaults(s) \cup TruncationFaults(<<s.c>> \o Enc(SeedTree(s)))} : s \in Seeds}
 =============================================================================
